@@ -131,7 +131,7 @@ prop("C09", ["PepitVerif/Props/C09.lean", "PepitVerif/Math/Certificate.lean"], o
 prop("C10", ["PepitVerif/Props/C10.lean", "PepitVerif/Math/ClassForms.lean"],
      streams=[stream("tree (expression algebra the examples are written in)", "tree", 100, 1000, offset=71),
               stream("cls (class constraints the examples rely on, all parameter regimes)", "cls", 100, 1500, offset=101)],
-     direct=[oracle("c10_examples", 40, 103), oracle("c10_refs", 57, 600), oracle("c10_sweeps", 19, 190), oracle("c10_equivalent", 7, 7), oracle("c10_neighbours", 36, 400)],
+     direct=[oracle("c10_examples", 40, 103), oracle("c10_refs", 57, 600), oracle("c10_sweeps", 19, 190), oracle("c10_equivalent", 7, 7), oracle("c10_neighbours", 300, 300)],
      trusted=["hand transcription of 19 published closed forms and their validity ranges (lean/PepitModel/Ref.lean), validated against the pinned tree",
               "frozen reference tables harness/ref_table.json and harness/ref_neighbours.json (claim tight/upper per example at the suite tuples and at neighbouring tuples: other iteration counts, scaled parameters) generated from the pinned tree"],
      assumptions=["'SDP optimum = closed form for all parameters' is a theorem of the literature per family and is not formalised: this property is decided mostly by correspondence on parameter grids"])
